@@ -238,6 +238,8 @@ Pool == /\ Mode = "pool" /\ pc = "in"
                st == [r \in 1..R |-> PoolStatDeleted(kind, inp.a[r], inp.ma[r])]
                miss == UnionMask(inp.ma) IN
            out' = [kind |-> kind, st |-> st, miss |-> SetToSortSeq(miss, <),
+                   \* util/pooling.py normalises the whitened methods by u' V^-1 u on the entries every RDM has
+                   V |-> IF inp.m \in CovMethods /\ 2 * LEN = NC * (NC - 1) THEN VSub(C!NoSigma, miss) ELSE <<>>,
                    \* exact pooled entries where the last step is rational: mean of the values / of the doubled ranks
                    exact |-> IF kind \in {"mean", "rank"}
                              THEN [k \in 1..LEN |-> IF k \in miss THEN Undef
@@ -379,7 +381,7 @@ Emit == (Done /\ Pick(EmitMod)) =>
      [] Mode = "pool" ->
           PrintT(ToJson([t |-> "pool", cls |-> ClassOf(inp.ma, <<>>), m |-> inp.m, src |-> inp.src, arg |-> inp.arg,
                          a0 |-> inp.a0, a |-> inp.a, ma |-> MaskSeqs(inp.ma), kind |-> out.kind, st |-> out.st,
-                         miss |-> out.miss, exact |-> out.exact]))
+                         miss |-> out.miss, exact |-> out.exact, V |-> out.V]))
      [] Mode = "mean" ->
           PrintT(ToJson([t |-> "mean", wk |-> inp.wk, wid |-> inp.wid, w |-> inp.w, src |-> inp.src, arg |-> inp.arg,
                          a |-> inp.a, ma |-> MaskSeqs(inp.ma), mean |-> out.mean]))
